@@ -54,24 +54,46 @@ BUILTIN = [
     {"name": "mixed-per-package", "template": "testify", "dir": "{{.InterfaceDir}}/mocks", "pkgname": "mocks",
      "suffix": ".go", "formatter": "goimports", "mixed": True},
 ]
+# in-package mocks with the destination directory SPELLED in different ways (relative to the config file, with a ./
+# prefix, through ConfigDir, absolute), in a regular or a _test.go file, run from the config directory or from a
+# sub-directory: the re-run sees its own output as part of the source package under every spelling
+BUILTIN += [
+    {"name": "testify-inpackage-reldir", "template": "testify", "dir": "{{.InterfaceDirRelative}}", "pkgname": "{{.SrcPackageName}}",
+     "suffix": ".go", "formatter": "goimports"},
+    {"name": "testify-inpackage-dotreldir-gofmt", "template": "testify", "dir": "./{{.InterfaceDirRelative}}", "pkgname": "{{.SrcPackageName}}",
+     "suffix": ".go", "formatter": "gofmt"},
+    {"name": "matryer-inpackage-configdir", "template": "matryer", "dir": "{{.ConfigDir}}/{{.InterfaceDirRelative}}", "pkgname": "{{.SrcPackageName}}",
+     "suffix": ".go", "formatter": "goimports"},
+    {"name": "testify-inpackage-reldir-testfile", "template": "testify", "dir": "{{.InterfaceDirRelative}}", "pkgname": "{{.SrcPackageName}}",
+     "suffix": "_test.go", "formatter": "goimports"},
+    {"name": "testify-inpackage-absdir-subcwd", "template": "testify", "dir": "{{.InterfaceDir}}", "pkgname": "{{.SrcPackageName}}",
+     "suffix": ".go", "formatter": "goimports", "cwd": "w"},
+    {"name": "matryer-inpackage-updir-subcwd", "template": "matryer", "dir": "../{{.InterfaceDirRelative}}", "pkgname": "{{.SrcPackageName}}",
+     "suffix": ".go", "formatter": "noop", "cwd": "w"},
+]
 MIXED = [{"template": "testify", "formatter": "goimports", "force-file-write": True},
          {"template": "matryer", "formatter": "noop", "force-file-write": False}]
 
 
 def src_text(k):
-    """Two interfaces per package; their signatures pull in several imports, two of which share the package
-    name `util` (so import aliases are allocated), in a different order in every other package."""
+    """Two interfaces per package.  Their signatures pull in several imports, two of which share the package name
+    `util` (so import aliases are allocated), in a different order in every other package; in each interface the
+    FIRST method (go/types sorts methods by name) meets both `util` packages inside ONE composite type -- map key /
+    value, func parameter / result, struct fields, generic instantiation arguments."""
     lab = LAB[k]
     a, b = ("lib1", "lib2") if k % 2 == 0 else ("lib2", "lib1")
     return (f"package p{lab}\n\nimport (\n\t\"context\"\n\t\"io\"\n\t\"time\"\n\n"
             f"\tua \"{MOD}/{a}/util\"\n\tub \"{MOD}/{b}/util\"\n)\n\n"
-            f"type I{lab}1 interface {{\n\tDo(ctx context.Context, r io.Reader, d time.Duration, more ...string) (string, error)\n"
+            f"type I{lab}1 interface {{\n\tAaa(m map[ua.T]ub.T, f func(ub.T, io.Reader) (ua.T, error)) chan map[ub.T][]ua.T\n"
+            f"\tDo(ctx context.Context, r io.Reader, d time.Duration, more ...string) (string, error)\n"
             f"\tUse(x ua.T, y ub.T) ua.T\n\tClose() error\n}}\n\n"
-            f"type I{lab}2 interface {{\n\tGet(key string) (int, bool)\n\tPut(w io.Writer, at time.Time, y ub.T)\n}}\n\n"
+            f"type I{lab}2 interface {{\n\tAab(p ub.Pair[ub.T, ua.T], s struct {{\n\t\tX ua.T\n\t\tY ub.T\n\t}}) ua.Pair[ua.T, ub.T]\n"
+            f"\tGet(key string) (int, bool)\n\tPut(w io.Writer, at time.Time, y ub.T)\n}}\n\n"
             f"type S{lab} struct{{ N int }}\n")
 
 
-LIBS = {"lib1/util/t.go": "package util\n\ntype T struct{ A int }\n", "lib2/util/t.go": "package util\n\ntype T struct{ B string }\n"}
+LIBS = {"lib1/util/t.go": "package util\n\ntype T struct{ A int }\n\ntype Pair[K comparable, V any] struct {\n\tKey K\n\tVal V\n}\n",
+        "lib2/util/t.go": "package util\n\ntype T struct{ B string }\n\ntype Pair[K comparable, V any] struct {\n\tKey K\n\tVal V\n}\n"}
 
 
 def schema_of(c, s):
@@ -168,6 +190,8 @@ def build_world(ctx, wi, c, profile, pad=False):
     write_files(base, files)
     # expected output path of file (k, j) -- used to map Collect/FileBegin/Write events to the model's file ids
     fmap = {}
+    cwd = runp / profile["cwd"] if profile and profile.get("cwd") else runp
+    args = ("--config", str(runp / ".mockery.yml")) if cwd != runp else ()
     for k in range(1, W["n"] + 1):
         src_dir = runp / wdir / rels[k - 1]
         pkgpath = f"{MOD}/{wdir}/{rels[k - 1]}"
@@ -178,12 +202,14 @@ def build_world(ctx, wi, c, profile, pad=False):
                 d = runp / "out" / pkgpath
                 fn = "mocks.txt" if j == 0 else f"I{LAB[k - 1]}{j}.txt"
             else:
-                d = Path(profile["dir"].replace("{{.InterfaceDir}}", str(src_dir)).replace("{{.SrcPackagePath}}", pkgpath))
+                d = Path(profile["dir"].replace("{{.InterfaceDir}}", str(src_dir)).replace("{{.SrcPackagePath}}", pkgpath)
+                         .replace("{{.InterfaceDirRelative}}", os.path.relpath(src_dir, runp)).replace("{{.ConfigDir}}", str(runp)))
                 if not d.is_absolute():
-                    d = runp / d
+                    d = Path(os.path.normpath(cwd / d))
                 fn = ("mocks" if j == 0 else f"mock_I{LAB[k - 1]}{j}") + suffix
             fmap[str(d / fn)] = (k, j)
-    return {"wi": wi, "c": c, "profile": profile, "top": top, "base": base, "run": runp, "index": index, "fmap": fmap, "wdir": wdir}
+    return {"wi": wi, "c": c, "profile": profile, "top": top, "base": base, "run": runp, "index": index, "fmap": fmap, "wdir": wdir,
+            "cwd": cwd, "args": args}
 
 
 GO_TOOL_FILES = ("go.mod", "go.sum")      # inputs the go command may touch; never written by mockery
@@ -224,7 +250,7 @@ def run_world(ctx, w, cap, min_runs):
         fresh(w)
         if r >= 1 and r + 1 >= min_runs and t_first is not None and time.time() - t_first < 1.2:
             time.sleep(1.2 - (time.time() - t_first))       # runs of one world span a change of the wall-clock second
-        res = run_bin(ctx, w["run"], timeout=240, tag=f"r{r}")
+        res = run_bin(ctx, w["cwd"], args=w["args"], timeout=240, tag=f"r{r}")
         if t_first is None:
             t_first = time.time()
         if res.timed_out:
@@ -241,7 +267,7 @@ def run_world(ctx, w, cap, min_runs):
     reruns = []
     if runs[-1]["exit"] == 0 and not (w["profile"] or {}).get("mixed"):
         for r in range(2):
-            res = run_bin(ctx, w["run"], timeout=240, tag=f"i{r}")
+            res = run_bin(ctx, w["cwd"], args=w["args"], timeout=240, tag=f"i{r}")
             if res.timed_out:
                 raise MachineryError(f"mockery timed out re-running order world {w['wi']}")
             reruns.append({"exit": res.code, "tree": tree_hash(w["run"], skip=GO_TOOL_FILES), "panic": res.panicked, "brief": res.brief(),
@@ -280,7 +306,7 @@ def project_run(w, trace, code):
             ent = int(s[1]) if len(s) > 1 and s[0] == "E" and s[1].isdigit() else 0
             out.append({"op": "collect", "k": k, "j": j, "e": ent})
         elif ev in ("FileBegin", "Write"):
-            fp = e["file"] if os.path.isabs(e["file"]) else os.path.normpath(os.path.join(str(w["run"]), e["file"]))
+            fp = os.path.normpath(e["file"] if os.path.isabs(e["file"]) else os.path.join(str(w["cwd"]), e["file"]))
             fk, fj = w["fmap"].get(fp, (0, 9))
             out.append({"op": "filebegin" if ev == "FileBegin" else "write", "fk": fk, "fj": fj})
         elif ev == "Stage" and not e.get("ok"):
@@ -374,19 +400,19 @@ def choose(ctx, cases, thorough):
     take(lambda c: GUARDS["no-schema"](c) and GUARDS["nested-recursive"](c), 2 * per, b)
     take(lambda c: GUARDS["no-schema"](c) and GUARDS["several-mocks-per-file"](c), 2 * per, b)
     take(lambda c: GUARDS["no-schema"](c) and "T" in c["W"]["rec"], 1 * per, b)
-    take(GUARDS["no-schema"], (2 * per) if not thorough else 40, b)
+    take(GUARDS["no-schema"], len(BUILTIN) - 5 if not thorough else 40, b)
     # the first built-in world has nested recursive packages: its mocks go to a directory BELOW the sources, which a
     # re-run discovers as a new sub-package; the other layouts rotate with the seed
     sub = next(p for p in BUILTIN if p["name"] == "testify-subdir-noop")
     mixed = next(p for p in BUILTIN if p.get("mixed"))
     rest = [p for p in BUILTIN if p is not sub and p is not mixed]
-    for n, (i, _) in enumerate(b):
+    for n, (i, _) in enumerate(b):                  # every layout once per len(BUILTIN) worlds; which world gets which rotates
         if n % len(BUILTIN) == 0:
             builtin.append((i, sub))
         elif n % len(BUILTIN) == 1:
             builtin.append((i, mixed))
         else:
-            builtin.append((i, rest[(n - 2 + ctx.seed) % len(rest)]))
+            builtin.append((i, rest[(n % len(BUILTIN) - 2 + ctx.seed) % len(rest)]))
     return probe + builtin, long_runs
 
 
